@@ -1,5 +1,5 @@
 (** C16 — memory hierarchies are transparent to requesters.  Property theorems only. *)
-From Akita Require Import Lib.Base C16.Model C16.Proofs C16.Spec C16.Proofs2.
+From Akita Require Import Lib.Base C16.Model C16.Proofs C16.Spec C16.Proofs2 C16.Ideal C16.Proofs3.
 Local Open Scope N_scope.
 
 (** L0.  The masked read-modify-write performed by the ideal controller, the
@@ -65,6 +65,39 @@ Theorem c16_latest_is_flat_write : forall ws w a,
   else latest ws a.
 Proof. exact latest_snoc. Qed.
 Print Assumptions c16_latest_is_flat_write.
+
+(** L1.  The tick-level model of the ideal memory controller (exactly tied to
+    the real component tick by tick) refines flat memory: for every latency,
+    width, outgoing-buffer capacity and every schedule of deliveries and
+    partial retrievals (back-pressure), the requester-view automaton never
+    rejects a RESPONSE of the controller: every response answers a known
+    request exactly once with the matching kind, RspTo and Dst, reads carry
+    the flat-memory bytes, write acknowledgements apply the masked write.  The
+    only possible rejection is a request of the environment (ill-formed,
+    reused ID, or touching a byte in flight) — and when there is none, the
+    whole history is accepted. *)
+Theorem c16_ideal_transparent : forall width lat cap sched h,
+  history width lat cap (ist0 empty_store) sched = Some h ->
+  run_blame st0 h <> BadResponse /\
+  (run_blame st0 h <> BadRequest -> exists s, run st0 h = Some s).
+Proof.
+  intros width lat cap sched h Hh.
+  assert (HK : K (i_store (ist0 empty_store)) (map t_req (i_flight (ist0 empty_store)) ++ i_in (ist0 empty_store)) st0).
+  { constructor; cbn; try reflexivity; try constructor. intros r []. }
+  pose proof (ideal_never_at_fault width lat cap sched _ _ h HK Hh) as H1. split; [exact H1|].
+  intro H2. destruct (run_blame st0 h) as [s| |] eqn:E; try congruence.
+  exists s. apply run_blame_ok. exact E.
+Qed.
+Print Assumptions c16_ideal_transparent.
+
+Example c16_ideal_nonvacuous :
+  let src := [82] in
+  let w := Rq 1 true 8 2 [5; 6] (Some [true; false]) src in
+  let r := Rq 2 false 8 2 [] None src in
+  exists h, history 1 2 1 (ist0 empty_store)
+              [Slot [w] 0; Slot [] 0; Slot [] 1; Slot [r] 1; Slot [] 1; Slot [] 1; Slot [] 1] = Some h /\
+            accepts h = true /\ In (Recv true 2 src [5; 0]) h.
+Proof. eexists. split; [vm_compute; reflexivity|]. split; [vm_compute; reflexivity|]. vm_compute. tauto. Qed.
 
 (** non-vacuity: a history with two in-flight requests, a masked write and reads is accepted;
     dropping the write's data (a read of stale zeros after the acknowledgement) is rejected *)
